@@ -465,6 +465,19 @@ impl<'a> LedgerGen<'a> {
                         }
                     }
                 }
+                if self.rng.chance(1, 3) {
+                    // lot date and / or lot note: they annotate, the price (else the cost) values
+                    if self.rng.chance(2, 3) {
+                        p1.lot_extra.push(format!("[{}]", t.date.render(0)));
+                    }
+                    if p1.lot_extra.is_empty() || self.rng.chance(1, 2) {
+                        p1.lot_extra.push(["(first lot)", "(lot 2)", "(x)"][self.rng.usize(3)].to_string());
+                    }
+                    if self.rng.chance(1, 2) {
+                        p1.lot_extra.reverse();
+                    }
+                    p1.lot_extra_first = self.rng.chance(1, 3);
+                }
                 t.postings.push(p1);
                 let mut p2 = Posting::new(&self.written_account(&a2));
                 if self.rng.chance(self.cfg.p_omit_last.0, self.cfg.p_omit_last.1) && !unbalance {
@@ -506,11 +519,30 @@ impl<'a> LedgerGen<'a> {
                     self.lit(v, &cw)
                 });
                 let p2 = Posting::new(&self.written_account(&a2));
+                // the assigned account is touched earlier in the same transaction: the assignment is
+                // measured against the balance after that posting, not the one before the transaction
+                let earlier: Option<Posting> = match self.rng.below(6) {
+                    0 => {
+                        let mut p0 = Posting::new(&self.written_account(&a1));
+                        let v0 = self.value(false);
+                        p0.amount = Some(self.lit(v0, &cw));
+                        Some(p0)
+                    }
+                    1 => {
+                        let mut p0 = Posting::new(&self.written_account(&a1));
+                        let v0 = self.value(false);
+                        p0.assertion = Some(self.lit(v0, &cw));
+                        Some(p0)
+                    }
+                    _ => None,
+                };
                 if self.rng.chance(1, 2) {
+                    t.postings.extend(earlier);
                     t.postings.push(p1);
                     t.postings.push(p2);
                 } else {
                     t.postings.push(p2);
+                    t.postings.extend(earlier);
                     t.postings.push(p1);
                 }
                 if unbalance {
@@ -954,7 +986,12 @@ impl<'a> TreeState<'a> {
                 let pat = if question {
                     format!("{}part{}-??.ledger", rel_dir, k)
                 } else {
-                    format!("{}part{}-*.ledger", rel_dir, k)
+                    match self.rng.below(5) {
+                        // a pattern that is a glob only through its character classes
+                        0 => format!("{}part{}-0[1-9].ledger", rel_dir, k),
+                        1 => format!("{}part{}-[0-9][!a-z].ledger", rel_dir, k),
+                        _ => format!("{}part{}-*.ledger", rel_dir, k),
+                    }
                 };
                 self.files[idx].push(Entry::Include(pat));
                 if self.cfg.dotfiles && self.rng.chance(1, 2) {
@@ -988,6 +1025,14 @@ impl<'a> TreeState<'a> {
                 self.files.push(f);
                 let fi = self.files.len() - 1;
                 self.files[idx].push(Entry::Include(format!("{}inc{}.ledger", rel_dir, k)));
+                if left >= 2 && self.rng.chance(1, 6) {
+                    // an included file that holds no entry at all (empty, or blank lines only)
+                    let pe = format!("{}/inc{}-empty.ledger", abs_dir, k);
+                    let mut fe = FileSpec::new(&pe);
+                    fe.crlf = self.rng.chance(1, 6);
+                    self.files.push(fe);
+                    self.files[idx].push(Entry::Include(format!("{}inc{}-empty.ledger", rel_dir, k)));
+                }
                 if self.cfg.decoys && abs_dir != "/w" && dir != "/w" && !rel_dir.starts_with("..") {
                     let wrong = normalize(&format!("/w/{}inc{}.ledger", rel_dir, k));
                     if wrong != p && !self.files.iter().any(|f| f.path == wrong) {
